@@ -382,12 +382,17 @@ def _bounded_csv(tier, seed):
                                 os.remove(fp)
                             # append to a file that does not exist yet: header must be written
                             fp2 = os.path.join(tmpdir, f'g{ev}.csv')
-                            if writer == 'tracts_to_csv':
-                                tl.tracts_to_csv(atts, fp2, 'a', nice_headers=nice)
-                            else:
-                                w = TractWriter(atts, fp2, 'a', nice_headers=nice)
-                                w.write(tl)
-                                w.close()
+                            try:
+                                if writer == 'tracts_to_csv':
+                                    tl.tracts_to_csv(atts, fp2, 'a', nice_headers=nice)
+                                else:
+                                    w = TractWriter(atts, fp2, 'a', nice_headers=nice)
+                                    w.write(tl)
+                                    w.close()
+                            except Exception as e:
+                                bad({'text': text, 'config': cfg, 'attributes': atts, 'writer': writer, 'mode': 'a (new file)'},
+                                    f"{type(e).__name__}: {e}", 'file written')
+                                continue
                             ev += 1
                             with open(fp2, newline='') as f:
                                 got = list(csv.reader(f))
